@@ -1,5 +1,6 @@
 """C05 -- revoked state is never used and state is never revoked early."""
 import chan_common as cc
+import counters_apalache
 
 def run(tier, seed):
     return cc.run_check("C05", tier, seed,
@@ -9,5 +10,6 @@ def run(tier, seed):
         profiles=[("default", 2, 200), ("tamper", 2, 120), ("crash", 2, 80), ("asyncreest", 2, 120), ("async", 2, 40), ("default", 3, 40)],
         thorough_profiles=[("default", 2, 2000), ("tamper", 2, 1200), ("crash", 2, 1000), ("asyncreest", 2, 1500), ("async", 2, 800), ("default", 3, 400), ("crash", 3, 300)],
         families=[("asynccross", 250), ("inflight", 150), ("monbcast", 200), ("asyncsign", 200)], thorough_families=[("asynccross", 2500), ("inflight", 1500), ("monbcast", 1500), ("asyncsign", 1500)],
+        extra_parts=[("unbounded-counters (Apalache)", counters_apalache.run_part)],
         assumptions=cc.COMMON_ASSUMPTIONS + [
             "broadcast commitments are identified by txid (known from the monitor updates) and must not be older than the last revocation released; HTLC transactions built on them are covered by the on-chain checks"])
